@@ -288,5 +288,3 @@ func fmtObs(obs []string) []string {
 	return out
 }
 
-func cmdCheck(args []string) int  { fmt.Fprintln(os.Stderr, "check: not built yet"); return 2 }
-func cmdReplay(args []string) int { fmt.Fprintln(os.Stderr, "replay: not built yet"); return 2 }
